@@ -1353,8 +1353,11 @@ class Evaluator:
                 return self.expr(node.body, Frame(cfr.fn, cfr.module, env2, cfr.self_cls, fr.depth + 1))
             return None
         if f[0] == "call" and (f[1] == "attrgetter" or f[1] == ("global", "attrgetter") or (isinstance(f[1], tuple) and f[1][-1:] == ("attrgetter",))) \
-                and len(f[2]) == 1 and f[2][0][0] == "const" and isinstance(f[2][0][1], str) and "." not in f[2][0][1]:
-            return self.attr(arg, f[2][0][1], fr)
+                and len(f[2]) == 1 and f[2][0][0] == "const" and isinstance(f[2][0][1], str):
+            v = arg
+            for part in f[2][0][1].split("."):
+                v = self.attr(v, part, fr)
+            return v
         if f[0] == "global" and f[1] in ("float", "int", "str", "bool", "abs", "len", "type", "repr", "hash"):
             n = f[1]
             if n in ("int", "float"):
